@@ -1,6 +1,8 @@
 package vc
 
 import (
+	"fmt"
+	"os"
 	"go/types"
 	"strings"
 
@@ -27,6 +29,9 @@ func (fc *FnCtx) varargs(st *State, sl Val) ([]boxInfo, bool) {
 		el := fc.S.Resolve(smt.SAt(seq, smt.IntLit(i)), 12)
 		bi, ok := fc.boxes[el.String()]
 		if !ok {
+			if os.Getenv("GOVC_DEBUG_VARARGS") != "" {
+				fmt.Fprintf(os.Stderr, "varargs: element %d of %d unresolved: %s\n", i, n, el)
+			}
 			return nil, false
 		}
 		out = append(out, bi)
